@@ -219,6 +219,10 @@ Section SendMonitor.
       let '(m2, v2) := check_burst m1 (idx + 1) r in (m2, vand v1 v2)
     end.
 
+  (** The burst ended with a send that failed (an I/O error on a first copy ends the transfer). *)
+  Definition burst_send_failed (l : list (bytes * bool * option (N * N))) : bool :=
+    match rev_append l [] with (_, f, _) :: _ => f | [] => false end.
+
   Definition has_data (ems : list bytes) : bool :=
     existsb (fun raw => match as_data raw with Some _ => true | None => false end) ems.
 
@@ -269,8 +273,10 @@ Section SendMonitor.
             let sent := match ems with [] => false | _ => true end in
             let timed := tmo <=? elapsed in
             let stale_ack := match ack with Some _ => true | None => false end in
+            (* ... unless the retransmission it coincided with (time-out elapsed) failed to send *)
+            let io_end := is_last && burst_send_failed b && match ending with EndSendFail => true | _ => false end in
             let c08 := (negb sent || timed)
-                       && (negb (stale_ack && is_last) || (retry_budget <=? fails)) in
+                       && (negb (stale_ack && is_last) || (retry_budget <=? fails) || io_end) in
             let c07 := (negb (retry_budget <=? fails) || is_last)
                        && (negb is_last || match ending with EndOk => false | _ => true end) in
             let m0 := mk_smon (m_hi m) (m_acked m) (if sent then 0 else elapsed) fails (m_client m) false in
